@@ -420,9 +420,17 @@ impl ProtocolSet {
             })
             .collect::<FuturesUnordered<_>>();
 
-        while !futures.is_empty() {
-            if let Some(Err(error)) = futures.next().await {
-                return Err(error.into());
+        // A failed send means the protocol has shut down (the user dropped its handle or its event
+        // loop exited). That must not keep the remaining protocols from learning about, and
+        // using, the connection.
+        while let Some(result) = futures.next().await {
+            if let Err(error) = result {
+                tracing::debug!(
+                    target: LOG_TARGET,
+                    ?peer,
+                    ?error,
+                    "protocol has shut down, connection established not reported to it",
+                );
             }
         }
 
